@@ -185,7 +185,7 @@ class CSVRecordIterator extends rbql.RBQLInputIterator {
             // 2. Scanning buffer chunks for non-continuation utf-8 bytes from the end of the buffer:
             //    src_buffer -> (buffer_before, buffer_after) where buffer_after is very small(a couple of bytes) and buffer_before is large and ends with a non-continuation bytes
             // 3. Internal buffer to store small tail part from the previous buffer
-            this.decoder = new util.TextDecoder(encoding, {fatal: true, stream: true});
+            this.decoder = new util.TextDecoder(encoding, {fatal: true, stream: true, ignoreBOM: true}); // ignoreBOM: keep the BOM in the text, so that it is removed (and reported) by remove_utf8_bom() like in the bulk mode
         }
 
         this.input_exhausted = false;
@@ -393,7 +393,7 @@ class CSVRecordIterator extends rbql.RBQLInputIterator {
         let decoded_string = null;
         if (this.decoder) {
             try {
-                decoded_string = this.decoder.decode(data_chunk);
+                decoded_string = this.decoder.decode(data_chunk, {stream: true}); // `stream` is a decode() option: a multibyte character can be split between two chunks
             } catch (e) {
                 if (e instanceof TypeError) {
                     this.store_or_propagate_exception(new RbqlIOHandlingError(utf_decoding_error));
@@ -445,6 +445,13 @@ class CSVRecordIterator extends rbql.RBQLInputIterator {
 
     process_data_stream_end() {
         this.input_exhausted = true;
+        if (this.decoder) {
+            try {
+                this.partially_decoded_line += this.decoder.decode(); // Flush the decoder: throws if the input ends inside a multibyte character
+            } catch (e) {
+                this.store_or_propagate_exception(e instanceof TypeError ? new RbqlIOHandlingError(utf_decoding_error) : e);
+            }
+        }
         if (this.partially_decoded_line.length) {
             let last_line = this.partially_decoded_line;
             this.partially_decoded_line = '';
